@@ -83,6 +83,11 @@ fn c09_space<K: Kit>(spec: &Spec, lat: &[V], triples: bool, rep: &mut Report) {
             rep.distinct.insert(h128(&[x.to_bits(), i as u64, j as u64, h128(&lat[i].bits()) as u64, h128(&lat[j].bits()) as u64]));
             let tol = dist_tol(spec, &lat[i], &lat[j]);
             let det = || json!({"a": lat[i].json(), "b": lat[j].json(), "d": x});
+            if !refspace::dist(spec, &lat[i], &lat[j]).is_finite() {
+                // (absurd weights: the textbook formula itself overflows for this pair; nothing is claimed)
+                rep.count("pairs_skipped_reference_overflows", 1);
+                continue;
+            }
             if !(x >= 0.0) || !x.is_finite() {
                 viol(rep, "C09", kit, "non-negative-finite", spec, format!("distance is {x}"), det());
                 continue;
@@ -119,6 +124,9 @@ fn c09_space<K: Kit>(spec: &Spec, lat: &[V], triples: bool, rep: &mut Report) {
                 let exact = matches!(e, V::So3(_));
                 let tol = if exact { 0.0 } else { dist_tol(spec, &e, &lat[j]) + dist_tol(spec, &lat[i], &lat[j]) };
                 rep.count("representation_pairs", 1);
+                if !refspace::dist(spec, &lat[i], &lat[j]).is_finite() {
+                    continue;
+                }
                 if !((x - d[i * n + j]).abs() <= tol) {
                     viol(rep, "C09", kit, "representation-invariance", spec, format!("d(a,b) = {} but for an equivalent representation of a it is {x}", d[i * n + j]), json!({"a": lat[i].json(), "a_equiv": e.json(), "b": lat[j].json()}));
                 }
@@ -238,6 +246,16 @@ fn c10_space<K: Kit>(spec: &Spec, lat: &[V], ts: &[f64], rep: &mut Report) {
                 rep.count("evaluations", 1);
                 rep.distinct.insert(h128(&ov.bits()));
                 let det = || json!({"a": lat[i].json(), "b": lat[j].json(), "t": t, "result": ov.json()});
+                // the result is a function of (a, b, t): what the output state held before must not matter
+                for other in [&st[j], &st[(i + j + 1) % n]] {
+                    let mut o2 = other.clone();
+                    sp.interpolate(&st[i], &st[j], t, &mut o2);
+                    rep.count("output_state_variants", 1);
+                    if K::bits(&o2) != K::bits(&out) {
+                        viol(rep, "C10", kit, "result-depends-on-output-state", spec, format!("interpolating into an output state that held {} gives {}", K::to_v(other).json(), K::to_v(&o2).json()), det());
+                        break;
+                    }
+                }
                 if !ov.all_finite() {
                     viol(rep, "C10", kit, "non-finite-result", spec, "interpolation produced a non-finite state".into(), det());
                     continue;
@@ -295,7 +313,9 @@ fn comp_dist(spec: &Spec, a: &V, b: &V) -> f64 {
         Spec::Rv { .. } => Rv::build(spec).distance(&Rv::from_v(a), &Rv::from_v(b)),
         Spec::So2 { .. } => So2::build(spec).distance(&So2::from_v(a), &So2::from_v(b)),
         Spec::So3 { .. } => So3::build(spec).distance(&So3::from_v(a), &So3::from_v(b)),
-        _ => panic!("nested compound"),
+        // a compound used as a component: the real compound space (its own law is checked where it is the top level)
+        Spec::Cmp { .. } => Cmp::build(spec).distance(&Cmp::from_v(a), &Cmp::from_v(b)),
+        _ => panic!("nested SE(2)/SE(3)"),
     }
 }
 fn comp_interp(spec: &Spec, a: &V, b: &V, t: f64) -> V {
@@ -315,7 +335,12 @@ fn comp_interp(spec: &Spec, a: &V, b: &V, t: f64) -> V {
             So3::build(spec).interpolate(&So3::from_v(a), &So3::from_v(b), t, &mut o);
             So3::to_v(&o)
         }
-        _ => panic!("nested compound"),
+        Spec::Cmp { .. } => {
+            let mut o = Cmp::from_v(a);
+            Cmp::build(spec).interpolate(&Cmp::from_v(a), &Cmp::from_v(b), t, &mut o);
+            Cmp::to_v(&o)
+        }
+        _ => panic!("nested SE(2)/SE(3)"),
     }
 }
 fn comp_enforce(spec: &Spec, a: &V) -> V {
@@ -335,7 +360,12 @@ fn comp_enforce(spec: &Spec, a: &V) -> V {
             So3::build(spec).enforce_bounds(&mut o);
             So3::to_v(&o)
         }
-        _ => panic!("nested compound"),
+        Spec::Cmp { .. } => {
+            let mut o = Cmp::from_v(a);
+            Cmp::build(spec).enforce_bounds(&mut o);
+            Cmp::to_v(&o)
+        }
+        _ => panic!("nested SE(2)/SE(3)"),
     }
 }
 fn comp_satisfies(spec: &Spec, a: &V) -> bool {
@@ -343,7 +373,8 @@ fn comp_satisfies(spec: &Spec, a: &V) -> bool {
         Spec::Rv { .. } => Rv::build(spec).satisfies_bounds(&Rv::from_v(a)),
         Spec::So2 { .. } => So2::build(spec).satisfies_bounds(&So2::from_v(a)),
         Spec::So3 { .. } => So3::build(spec).satisfies_bounds(&So3::from_v(a)),
-        _ => panic!("nested compound"),
+        Spec::Cmp { .. } => Cmp::build(spec).satisfies_bounds(&Cmp::from_v(a)),
+        _ => panic!("nested SE(2)/SE(3)"),
     }
 }
 fn comp_lvs(spec: &Spec) -> f64 {
@@ -354,7 +385,8 @@ fn comp_sample(spec: &Spec, rng: &mut crate::rngseam::WordRng) -> Option<V> {
         Spec::Rv { .. } => Rv::build(spec).sample_uniform(rng).ok().map(|s| Rv::to_v(&s)),
         Spec::So2 { .. } => So2::build(spec).sample_uniform(rng).ok().map(|s| So2::to_v(&s)),
         Spec::So3 { .. } => So3::build(spec).sample_uniform(rng).ok().map(|s| So3::to_v(&s)),
-        _ => panic!("nested compound"),
+        Spec::Cmp { .. } => Cmp::build(spec).sample_uniform(rng).ok().map(|s| Cmp::to_v(&s)),
+        _ => panic!("nested SE(2)/SE(3)"),
     }
 }
 
@@ -445,7 +477,9 @@ fn c13_space<K: Kit>(spec: &Spec, lat: &[V], ts: &[f64], rep: &mut Report, label
             let want: f64 = (0..parts.len()).map(|k| (comp_dist(&parts[k], &ai[k], &bj[k]) * w[k]).powi(2)).sum::<f64>().sqrt();
             rep.count("evaluations", 1);
             rep.distinct.insert(h128(&[d.to_bits(), i as u64, j as u64, h128(&lat[i].bits()) as u64]));
-            if !((d - want).abs() <= 1e-12 * want.abs().max(1e-300)) {
+            if !want.is_finite() {
+                rep.count("pairs_skipped_reference_overflows", 1);
+            } else if !((d - want).abs() <= 1e-12 * want.abs().max(1e-300)) {
                 viol(rep, "C13", kit, &format!("{label}distance"), spec, format!("compound distance {d}, sqrt(sum (w_i d_i)^2) = {want}"), json!({"a": lat[i].json(), "b": lat[j].json(), "weights": w}));
             }
             for &t in ts {
@@ -458,6 +492,12 @@ fn c13_space<K: Kit>(spec: &Spec, lat: &[V], ts: &[f64], rep: &mut Report, label
                     if !bits_eq(&ov[k], &wv) {
                         viol(rep, "C13", kit, &format!("{label}interpolate"), spec, format!("component {k} differs from the component space's own interpolation"), json!({"a": lat[i].json(), "b": lat[j].json(), "t": t, "got": ov[k].json(), "want": wv.json()}));
                     }
+                }
+                // the result is a function of (a, b, t): what the output state held before must not matter
+                let mut o2 = st[(i + j + 1) % n].clone();
+                sp.interpolate(&st[i], &st[j], t, &mut o2);
+                if K::bits(&o2) != K::bits(&o) {
+                    viol(rep, "C13", kit, &format!("{label}interpolate-depends-on-output-state"), spec, "interpolating into an output state with other previous content gives another result".into(), json!({"a": lat[i].json(), "b": lat[j].json(), "t": t, "into_clone_of_a": K::to_v(&o).json(), "into_other_state": K::to_v(&o2).json()}));
                 }
             }
         }
@@ -541,7 +581,7 @@ fn c13_reweighted(spec: &Spec, lat: &[V], rep: &mut Report) {
                 let d = s.distance(&st[i], &st[j]);
                 let want: f64 = (0..k).map(|q| (comp_dist(&parts[q], &ai[q], &bj[q]) * new_w[q]).powi(2)).sum::<f64>().sqrt();
                 rep.count("evaluations", 1);
-                if !((d - want).abs() <= 1e-12 * want.abs().max(1e-300)) {
+                if want.is_finite() && !((d - want).abs() <= 1e-12 * want.abs().max(1e-300)) {
                     viol(rep, "C13", "Compound", "distance-after-reweighting", spec, format!("{name}: compound distance {d}, the law with the CURRENT weights gives {want}"), json!({"a": lat[i].json(), "b": lat[j].json(), "weights_now": new_w}));
                 }
             }
@@ -648,6 +688,50 @@ pub fn run(prop: &'static str, tier: &'static str) -> i32 {
             jobs.extend(se_spaces());
         }
         _ => unreachable!(),
+    }
+    // compounds used as components (two robots, a robot on a base): the composition law is recursive
+    {
+        let r1 = Spec::Rv { dim: 1, bounds: Some(vec![(-5.0, 5.0)]), frac: None };
+        let r2 = Spec::Rv { dim: 2, bounds: Some(vec![(-5.0, 5.0), (-5.0, 5.0)]), frac: None };
+        let so2 = Spec::So2 { bounds: if prop == "C13" { Some((-1.0, 2.5)) } else { None }, frac: None };
+        let so3 = Spec::So3 { bounds: None, frac: None };
+        let planar = Spec::Cmp { parts: vec![r2.clone(), so2.clone()], weights: vec![1.0, 0.5] };
+        let arm = Spec::Cmp { parts: vec![so2.clone(), r1.clone()], weights: vec![2.0, 1.0] };
+        let nested: Vec<Spec> = vec![
+            Spec::Cmp { parts: vec![planar.clone(), r1.clone()], weights: vec![1.0, 2.0] },
+            Spec::Cmp { parts: vec![r1.clone(), planar.clone()], weights: vec![0.5, 3.0] },
+            Spec::Cmp { parts: vec![planar.clone(), planar.clone()], weights: vec![1.0, 1.0] },
+            Spec::Cmp { parts: vec![r1.clone(), planar.clone(), arm.clone()], weights: vec![1.0, 1.0, 0.5] },
+            Spec::Cmp { parts: vec![Spec::Cmp { parts: vec![arm.clone(), so3.clone()], weights: vec![1.0, 0.25] }, r2.clone()], weights: vec![2.0, 1.0] },
+        ];
+        for spec in nested {
+            let Spec::Cmp { parts, .. } = &spec else { unreachable!() };
+            let lat = compound_lattice(parts);
+            jobs.push((spec, lat));
+        }
+        // weights of absurd magnitude (the law is evaluated wherever the textbook formula itself is finite)
+        if prop != "C10" {
+            for (a, b) in [(1e200, 1.0), (1.0, 1e200)] {
+                for parts in [vec![r2.clone(), so2.clone()], vec![so2.clone(), r1.clone()], vec![so3.clone(), r2.clone()], vec![r1.clone(), so3.clone()]] {
+                    let lat = compound_lattice(&parts);
+                    jobs.push((Spec::Cmp { parts, weights: vec![a, b] }, lat));
+                }
+            }
+            // a tiny weight on a component with huge coordinates: w d is ordinary, w^2 alone underflows
+            {
+                let big = Spec::Rv { dim: 1, bounds: None, frac: None };
+                let lat: Vec<V> = [0.0, 2e150, -1e150].iter().flat_map(|x| [0.0, 3.0].iter().map(move |a| V::Cmp(vec![V::Rv(vec![*x]), V::So2(*a)]))).collect();
+                jobs.push((Spec::Cmp { parts: vec![big, so2.clone()], weights: vec![1e-170, 1.0] }, lat));
+            }
+            for w in [1e200] {
+                let s2 = Spec::Se2 { weight: w, bounds: Some(vec![(-5.0, 5.0), (-5.0, 5.0), (-PI, PI)]) };
+                let (p2, _) = as_parts(&s2).unwrap();
+                jobs.push((s2, compound_lattice(&p2)));
+                let s3 = Spec::Se3 { weight: w, bounds: Some(vec![(-5.0, 5.0), (-5.0, 5.0), (-5.0, 5.0)]) };
+                let (p3, _) = as_parts(&s3).unwrap();
+                jobs.push((s3, compound_lattice(&p3)));
+            }
+        }
     }
     let ts = t_lattice();
     let rep = jobs
